@@ -84,6 +84,7 @@ func (s StreamConstructor) NewReceiver(
 		name:        name,
 		clock:       s.opts.clock,
 		options:     options,
+		startOffset: len(*s.stream.log),
 	}, nil
 }
 
@@ -97,6 +98,8 @@ type Stream struct {
 	name        string
 	clock       clock.Clock
 	options     workflow.ReceiverOptions
+	// startOffset is the length of the log when the receiver was created
+	startOffset int
 }
 
 func (s *Stream) Send(ctx context.Context, foreignID string, statusType int, headers map[workflow.Header]string) error {
@@ -121,9 +124,9 @@ func (s *Stream) Recv(ctx context.Context) (*workflow.Event, workflow.Ack, error
 		log := *s.log
 		s.mu.Unlock()
 
-		cursorOffset := s.cursorStore.Get(s.name)
-		if s.options.StreamFromLatest && cursorOffset == 0 {
-			s.cursorStore.Set(s.name, len(log))
+		cursorOffset, ok := s.cursorStore.Lookup(s.name)
+		if s.options.StreamFromLatest && !ok {
+			s.cursorStore.Set(s.name, s.startOffset)
 			continue
 		}
 
@@ -173,6 +176,14 @@ func (cs *cursorStore) Get(name string) int {
 	defer cs.mu.Unlock()
 
 	return cs.cursors[name]
+}
+
+func (cs *cursorStore) Lookup(name string) (int, bool) {
+	cs.mu.Lock()
+	defer cs.mu.Unlock()
+
+	value, ok := cs.cursors[name]
+	return value, ok
 }
 
 func (cs *cursorStore) Set(name string, value int) {
